@@ -896,7 +896,7 @@ namespace hs
                             "(capacity_left %zu -> %zu)",
                             cap0, cap0, cap1);
                 if (!plain && !(grown && (r.array || cap0 < ns)))
-                    violate("C18", "counter_delta",
+                    violate("C18,C04", "counter_delta",
                             "pool capacity_left %zu -> %zu for %zu byte(s) taken (node size %zu, next_capacity "
                             "was %zu, %u upstream call(s))",
                             cap0, cap1, taken, ns, next0, calls);
@@ -1015,7 +1015,7 @@ namespace hs
         hash_.add(heap.off(a.p));
         nontrivial_release_ = true;
         if (a.fam == COMP && !ok)
-            violate("C08", "own_dealloc_refused", "try_deallocate returned false for memory this allocator "
+            violate("C08,C04", "own_dealloc_refused", "try_deallocate returned false for memory this allocator "
                                                   "handed out (bytes=%zu array=%d)",
                     a.bytes, int(a.array));
         if (calls)
